@@ -156,8 +156,15 @@ def meta_cases(rnd, n):
             # Wrapped(): the input is addressable under `root` in EVERY statement of the query (derived tables, CTE
             # bodies, union branches, sub-queries), exactly as if the caller had passed {"root": input}
             sql_root = rnd.choice(WRAPPED_SHAPES).replace("{lit}", sql_str(s))
-            pairs.append(({"op": "query", "doc": enc_val({"root": doc}), "sql": sql_root},
-                          {"op": "query", "doc": enc_val(doc), "sql": sql_root, "wrapped": True}, "wrapped"))
+            wdoc = doc
+            if rnd.random() < 0.2:
+                # the wrapper is `root` itself: read as a whole, also when the input is empty or holds no table
+                sql_root = rnd.choice(["SELECT * FROM root", "SELECT COUNT(*) AS c FROM root", "SELECT root AS r FROM dual",
+                                       "SELECT 1 AS one, {lit} AS lit FROM root".replace("{lit}", sql_str(s)),
+                                       "SELECT `root.t` AS t FROM dual"])
+                wdoc = rnd.choice([{}, {}, doc, {"t": []}, {"n": 1}])
+            pairs.append(({"op": "query", "doc": enc_val({"root": wdoc}), "sql": sql_root},
+                          {"op": "query", "doc": enc_val(wdoc), "sql": sql_root, "wrapped": True}, "wrapped"))
     return pairs
 
 
